@@ -199,3 +199,23 @@ package vm
 //@ scan[C07.halt.writers] C07 fieldwriters VirtualMachine.halt: start resetForNewCode
 //@ scan[C07.running.writers] C07 fieldwriters VirtualMachine.running: start stop Clone
 //@ scan[C07.startcount.writers] C07 fieldwriters VirtualMachine.startCount: start
+
+// C03: inventory of the go statements of the package.
+// start#1 is the context watcher: it waits on two channels and stores two atomics (no script code, no indexing).
+//@ scan[C03.goroutines.vm] C03 gostmts vm: (*VirtualMachine).start#1:bare
+
+// C03: the two entry points through which the embedding API reaches eval() turn a Go panic raised while a script
+// runs into an error (structural obligation: each defers a closure calling recover()). Which functions reach eval
+// without passing through one of them is not decided here (callFunction / callObject are reached from builtins
+// running inside eval, i.e. under one of these guards, and from Call).
+//@ scan[C03.vm.recover] C03 recoverguard vm: (*VirtualMachine).runCodeInternal (*VirtualMachine).Call
+
+// C08 / C03: vm.Run (the path of risor.Eval and risor.EvalCode) rejects globals that cannot be converted with an
+// error: no explicit panic is reachable in it or in the constructors it inlines (KF-43 fixed: it went through vm.New,
+// which panics on purpose for compatibility).
+// (only the explicit-panic obligations of the body are kept: "trusted except panic"; the unit has no postcondition)
+//@ func Run
+//@ props C08 C03
+//@ safety panic
+//@ trusted except panic
+//@ assume[args.wf] ctx != nil
